@@ -192,7 +192,7 @@ func clean(p string) string {
 	return path.Clean(p)
 }
 
-func now() time.Time { return time.Now() }
+func now() time.Time { return simrt.TimeNow() }
 
 func perr(op, p string, err error) error { return &fs.PathError{Op: op, Path: p, Err: err} }
 
@@ -654,15 +654,10 @@ func OpenFile(p string, flag int, perm FileMode) (*File, error) {
 		if err = f.finish(op, err); err != nil {
 			return nil, perr("open", p, err)
 		}
-		// Creation takes at least 1µs of virtual time: kevo derives file names
-		// from time.Now().UnixNano() and a frozen clock would make two
-		// consecutive creations collide (simulator artefact, not kevo behaviour).
-		if simrt.Cur() != nil {
-			simrt.Sleep(time.Microsecond)
-			if f.staleTask(name) {
-				return nil, perr("open", p, ErrCrashed)
-			}
-		}
+		// Creation moves the logical clock of instrumented code by 1µs: kevo
+		// derives file names from time.Now().UnixNano() and a frozen virtual
+		// clock would make two creations collide (simulator artefact).
+		simrt.AdvanceSkew(time.Microsecond)
 	} else if flag&O_TRUNC != 0 && len(ino.data) > 0 {
 		op := &Op{Kind: OpTruncate, Path: p}
 		apply, _, err := f.point(op)
@@ -856,6 +851,9 @@ func (fl *File) WriteAt(p []byte, off int64) (int, error) {
 func (fl *File) WriteString(s string) (int, error) { return fl.Write([]byte(s)) }
 
 func (fl *File) write(p []byte, off int64, advance bool) (int, error) {
+	if realos.Getenv("KEVOSIM_DEBUG") != "" {
+		fmt.Fprintf(realos.Stderr, "simos.write %s off=%d n=%d\n", fl.path, off, len(p))
+	}
 	op := &Op{Kind: OpWrite, Path: fl.path, Off: off, Data: p}
 	apply, torn, err := fl.fs.point(op)
 	if fl.fs.Node(fl.node).Gen != fl.gen {
